@@ -160,6 +160,42 @@ def check_pair(ha, hb, a, b, acc, extra=True, holder=None):
     return bad
 
 
+# plain-str operands that carry SGR sequences: each is parsed on its own (a style left open at its end, a sequence without
+# text, a reset at its end, no sequence)
+LITS = ['\x1b[31mR', '\x1b[1m', 'x\x1b[m', 'pl', '\x1b[4mU\x1b[24m']
+
+
+def check_lits(ha, a, acc):
+    """join / + with several adjacent plain-str operands: the result is the operands side by side, every operand with
+    the styles it has when parsed alone."""
+    bad = []
+    ta, ca = model.alpha_codes(a)
+    parsed = {}
+    for l in LITS:
+        parsed[l] = model.alpha_codes(AnsiString(l))
+    for l1 in LITS:
+        for l2 in LITS:
+            (t1, c1), (t2, c2) = parsed[l1], parsed[l2]
+            for form in ('join_lits', 'str_join_lits', 'lits_join', 'add_lits'):
+                case = {'a': ha, 'b': None, 'form': form, 'lits': [l1, l2]}
+                acc.transitions += 1
+                try:
+                    if form == 'join_lits':
+                        r, wt, wc = AnsiString.join(a, l1, l2), ta + t1 + t2, list(ca) + list(c1) + list(c2)
+                    elif form == 'str_join_lits':
+                        r, wt, wc = AnsiStr.join(AnsiStr(a), l1, l2), ta + t1 + t2, list(ca) + list(c1) + list(c2)
+                    elif form == 'lits_join':
+                        r, wt, wc = AnsiString.join(l1, l2, a), t1 + t2 + ta, list(c1) + list(c2) + list(ca)
+                    else:
+                        r, wt, wc = (a + l1) + l2, ta + t1 + t2, list(ca) + list(c1) + list(c2)
+                except Exception as e:  # noqa
+                    bad.append(('cat-raises', case, '%s(%r, %r) raised %s: %s' % (form, l1, l2, type(e).__name__, e)))
+                    continue
+                if check_result(r, wt, wc, '%s(%r, %r)' % (form, l1, l2), case, bad, closed=False):
+                    acc.validated += 1
+    return bad
+
+
 def seam_class(ca, cb):
     """(end cell of a, start cell of b) - what the implementation's merge logic looks at."""
     ea = ca[-1] if ca else None
@@ -219,6 +255,9 @@ def run_task(task, acc):
             acc.evaluations += 1
             for clause, case, detail in check_pair(ha, hb, a, b, acc, extra=False):
                 acc.violation(clause, case, detail, sig=clause + ':' + case['form'] + ':str')
+        if ia % 4 == 0:
+            for clause, case, detail in check_lits(ha, build(ha), acc):
+                acc.violation(clause, case, detail, sig=clause + ':' + case['form'])
         # a value with itself (the same object on both sides)
         acc.evaluations += 1
         for clause, case, detail in check_self(ha, acc):
@@ -307,6 +346,9 @@ def replay(case):
         return [(cl, d) for cl, c, d in check_split(case['a'], build(case['a']), acc) if c.get('k') == case['k']]
     if case['form'].startswith('self_'):
         return [(cl, d) for cl, c, d in check_self(case['a'], acc) if c['form'] == case['form']]
+    if 'lits' in case:
+        return [(cl, d) for cl, c, d in check_lits(case['a'], build(case['a']), acc)
+                if c['form'] == case['form'] and c['lits'] == case['lits']]
     hb = case['b']
     b = hb[1] if hb[0] == 'lit' else build(hb)
     return [(cl, d) for cl, c, d in check_pair(case['a'], hb, build(case['a']), b, acc) if c['form'] == case['form']]
